@@ -431,11 +431,18 @@ impl WireEncode for WireHostAddr {
             WireHostAddr::V4(_) => Ok(()),
             WireHostAddr::V6(_) => Ok(()),
             WireHostAddr::Svc(_) => Ok(()),
-            WireHostAddr::Unknown { bytes, .. } => {
+            WireHostAddr::Unknown { id, bytes } => {
                 if bytes.is_empty() {
                     Err("ScionHostAddr::Unknown bytes.len() must be non-zero".into())
                 } else if !bytes.len().is_multiple_of(4) {
                     Err("ScionHostAddr::Unknown bytes.len() must be a multiple of 4".into())
+                } else if *id > 0b11 {
+                    Err("ScionHostAddr::Unknown id must fit into 2 bits".into())
+                } else if !matches!(
+                    WireHostAddrType::from(u8::from(self.addr_type())),
+                    WireHostAddrType::Unknown { .. }
+                ) {
+                    Err("ScionHostAddr::Unknown id and length are the encoding of a known type".into())
                 } else {
                     Ok(())
                 }
